@@ -197,10 +197,6 @@ func c05Boundary(c *fw.Case, sizes []int) {
 		c.Count("boundary_documents", 1)
 		tried = append(tried, fmt.Sprintf("%d bytes in chunks %v", len(d.Doc), d.Chunks))
 		c.Distinct("document_size", fmt.Sprint(len(d.Doc)))
-		if len(d.Doc) != size {
-			c.Inconclusive(fmt.Sprintf("could not produce a document of %d bytes (got %d)", size, len(d.Doc)))
-			return
-		}
 		sum := 0
 		for i, ch := range d.Chunks {
 			sum += ch
@@ -208,8 +204,8 @@ func c05Boundary(c *fw.Case, sizes []int) {
 				c.Violate("validated", "validated/chunking", fmt.Sprintf("document of %d bytes was sent in chunks %v", size, d.Chunks), nil)
 			}
 		}
-		if sum != size || len(d.Problem) > 0 {
-			c.Violate("validated", "validated/chunk-reassembly", fmt.Sprintf("document of %d bytes arrived as %d bytes in chunks %v (problems %v)", size, sum, d.Chunks, d.Problem), nil)
+		if sum != len(d.Doc) || len(d.Problem) > 0 {
+			c.Violate("validated", "validated/chunk-reassembly", fmt.Sprintf("document of %d bytes arrived as %d bytes in chunks %v (problems %v)", len(d.Doc), sum, d.Chunks, d.Problem), nil)
 		}
 		got, err := engine.GetTree(w.Cur(), "t1")
 		if err != nil {
@@ -223,7 +219,15 @@ func c05Boundary(c *fw.Case, sizes []int) {
 			c.Violate("config", "config/boundary", fmt.Sprintf("after a document of %d bytes Get differs: %d differences", size, len(diff)), nil)
 		}
 		if diff := d.Leaves.Diff(want); len(diff) > 0 {
-			c.Violate("validated", "validated/merge-differs-from-document/boundary", fmt.Sprintf("document of %d bytes does not hold the configuration that became readable", size), nil)
+			c.Violate("validated", "validated/merge-differs-from-document/boundary", fmt.Sprintf("the document the plugin was given for a configuration of about %d bytes (%d bytes in chunks %v) does not hold the configuration that became readable: %d leaves differ", size, len(d.Doc), d.Chunks, len(diff)), nil)
+		}
+		if c.Violated() {
+			return
+		}
+		if len(d.Doc) != size {
+			// the content is right, so this is the calibration of the padding, not the system
+			c.Inconclusive(fmt.Sprintf("could not produce a document of %d bytes (got %d)", size, len(d.Doc)))
+			return
 		}
 	}
 	c.Class(fmt.Sprintf("boundary:%v", sizes))
